@@ -70,6 +70,11 @@ Dump(p) == /\ fs' = [fs EXCEPT ![p] = "D1"]
 DumpOpts(p) == /\ fs' = [fs EXCEPT ![p] = "X1"]
                /\ last' = [act |-> "dump_opts", targets |-> {p}, dir |-> p[1], rec |-> FALSE]
 
+\* dump with a selection that keeps nothing (a spine type the document does not have): dumps returns the EMPTY string and the file
+\* holds exactly that (label Z) - also when it replaces a longer file
+DumpEmpty(p) == /\ fs' = [fs EXCEPT ![p] = "Z"]
+                /\ last' = [act |-> "dump_empty", targets |-> {p}, dir |-> p[1], rec |-> FALSE]
+
 (* ------------------------------- properties ----------------------------- *)
 OnlyTargetsChange == [][\A p \in Paths : fs'[p] # fs[p] => p \in last'.targets]_fcVars
 NonRecursiveStaysShallow == [][(last'.act \in {"k2e_dir", "e2k_dir"} /\ ~last'.rec) => \A p \in last'.targets : p[1] = last'.dir]_fcVars
